@@ -11,6 +11,7 @@ ASSUMPTIONS = [
     'IEEE doubles compared bit for bit in the replay',
     'the scheduler processes on the real kernel refine the MultiQueueServer LTS: checked by replay, not proved',
 ]
+EXTRA_MODULES = ('OnlVerif.Props.C15K', 'OnlVerif.Props.C15KW')
 TRUSTED_EXTRA = ['the kernel guarantees (G1-G3) that make `tick` admissible only at quiescence are theorems of model K (C01), assumed for the device LTS',
                  'py2lean/elem.py + elements.py (typed AST-subset translator; hand-written per-class field schema of DRR objects; the fragments of '
                  'DRR.__init__ / run / put are located by structural landmarks); the bridge theorem C15.drr_generated_eq_model ties its output to the model']
@@ -33,7 +34,409 @@ def gen(rng, n):
     return [gen_group(rng, i, ['rr', 'wrr', 'drr'][i % 3], backlog=rng.random() < 0.5, share=0.3) for i in range(n)]
 
 
+# ---- BEGIN rrk leg: RR as processes on the kernel MODEL (lean/OnlVerif/Net/RROnK.lean, driver mode `rrk`) ----
+def run_rrk(ctx, res=None):
+    """Extra leg for Props/C15K.lean: the K program of the RR scheduler (put / send_packet / run + a source process), run at
+    Float by the compiled driver, against the real RR with a real source process on the real kernel under env.run() (public API
+    only: a subclass taps put() and send_packet(), a recording `out`), compared line for line - the key order of the three dicts
+    included; plus C15/C12 restated over the implementation's own observations.  Called twice from run(): without `res` it answers
+    whether ctx.replay is a replay of this leg (then only this leg runs); with the result dict of the main leg it appends its
+    coverage / disagreements / failures."""
+    import json, collections
+    from vlib.util import bits, unbits, quiet, run_driver, split_cases
+    from onl.sim import Environment
+    from onl.packet import Packet
+    from onl.scheduler import RR
+
+    def replay_cases():
+        j = json.load(open(ctx.replay))
+        cs = ([j['case']] if j.get('case') else []) + [d['case'] for d in (j.get('broken_correspondence') or []) if d.get('case')]
+        return [c for c in cs if isinstance(c, dict) and c.get('kind') == 'rrk']
+
+    if res is None:
+        if not (ctx.replay and replay_cases()):
+            return None
+        res = {'coverage': {'evaluations': 0, 'distinct_nontrivial': 0, 'rule': 'replay of an rrk case', 'samples': []},
+               'disagreements': [], 'oracle_failures': []}
+        run_rrk(ctx, res)
+        k = res['coverage']['rr_on_kernel_model']
+        res['coverage'].update(evaluations=k['evaluations'], distinct_nontrivial=k['distinct_nontrivial'], samples=[k['sample']])
+        return res
+
+    def gen(rng, cid):
+        F = rng.randint(1, 5)
+        flows = list(range(F))
+        rng.shuffle(flows)                               # declaration order
+        rate = rng.choice([8.0, 8.0, 8.0, 16.0, 4.0, 1000.0, 12345.678, 1e6 / 3])
+        n = rng.randint(0, 14)
+        shape = rng.choice(['burst', 'coincide', 'mixed', 'mixed', 'sparse', 'random'])
+        arr = []
+        for i in range(n):
+            if shape == 'burst':
+                gap = 0.0 if i else rng.choice([0.0, 1.0])
+            elif shape == 'coincide':                    # unit-size packets at rate 8: transmissions last 1.0, arrivals on the grid
+                gap = float(rng.choice([0, 0, 1, 1, 1, 2]))
+            elif shape == 'sparse':
+                gap = float(rng.choice([5, 10, 50]))
+            elif shape == 'random':
+                gap = rng.random() * 3
+            else:
+                gap = rng.choice([0.0, 0.0, 0.5, 1.0, 1.0, 2.0, 3.0, round(rng.random() * 4, 3)])
+            size = 1 if shape == 'coincide' else rng.choice([1, 1, 2, 3, 4, 100, 1500])
+            arr.append([gap, i, rng.randrange(F), size])
+        if shape == 'coincide':
+            rate = 8.0
+        return {'cid': f'q{cid}', 'kind': 'rrk', 'F': F, 'flows': flows, 'rate': rate, 'arrivals': arr}
+
+    def text(c):
+        return ([f"CASE {c['cid']} {bits(c['rate'])} {c['F']}"] + [f'decl {f}' for f in c['flows']]
+                + [f'arr {bits(g)} {i} {f} {sz}' for g, i, f, sz in c['arrivals']] + ['END'])
+
+    def impl(c):
+        env = Environment()
+        hist = []
+
+        class TapRR(RR):
+            def put(self, packet):
+                hist.append(f'put {packet.packet_id} {bits(env.now)}')
+                return super().put(packet)
+
+            def send_packet(self, packet):
+                hist.append(f'serve {packet.packet_id} {bits(env.now)}')
+                return super().send_packet(packet)
+
+        class Rec:
+            def put(self, packet):
+                hist.append(f'out {packet.packet_id} {bits(env.now)}')
+        with quiet():
+            rr = TapRR(env, c['rate'], list(c['flows']))
+        rr.out = Rec()
+
+        def src():
+            for gap, i, f, sz in c['arrivals']:
+                yield env.timeout(gap)
+                rr.put(Packet(env.now, sz, i, src='src', flow_id=f))
+        env.process(src())
+        try:
+            with quiet():
+                env.run()
+            tag = 'RET'
+        except BaseException as x:        # noqa - the property says the run never raises
+            tag = f'RAISED {type(x).__name__}'
+        cur = rr.current_packet
+        lines = [tag] + hist + [f'cells rc={rr.packets_received} cur={"None" if cur is None else cur.packet_id} '
+                                f'tokens={len(rr.packets_available.items)}']
+        for f in range(c['F']):
+            st = rr.stores.get(f)
+            lines.append(f'flow {f} count={rr.queue_count.get(f, 0)} bytes={rr.queue_byte_size.get(f, 0)} len={len(st.items) if st else 0}')
+        lines.append(f'keys count={list(rr.queue_count.keys())} bytes={list(rr.queue_byte_size.keys())} stores={list(rr.stores.keys())}')
+        return lines + [f'now {bits(env.now)}', 'oracle ok' if tag == 'RET' and not oracle_k(c, lines)[0] else 'oracle -' if tag != 'RET' else 'oracle REJECT']
+
+    def oracle_k(c, lines):
+        """C15/C12 restated over the implementation's own put / serve / out observations (exact float equalities: the kernel computes
+        `now + delay` itself): the run returns; serve and out alternate on the same packet; out = serve + 8*size/rate; the j-th
+        service starts at max(j-th arrival instant, previous departure) (never idle with a backlog); every packet leaves once, per
+        flow in arrival order; classes are visited cyclically in declaration order, one packet per visit: between the entry behind the
+        one served last and the entry served now (wrapping at the end of `flows`) no entry has a packet that arrived in an earlier
+        instant and still waits"""
+        if lines[0] != 'RET':
+            return [{'what': f'the run ended with {lines[0]}', 'signature': 'rrk-raised'}], 0
+        flows = c['flows']
+        info = {i: (f, sz) for _, i, f, sz in c['arrivals']}
+        waiting, busy, served, outs, arrt, multi, tput, cursor = [], None, [], [], [], 0, {}, 0
+        for l in lines[1:]:
+            w = l.split()
+            if w[0] not in ('put', 'serve', 'out'):
+                continue
+            i, t = int(w[1]), unbits(int(w[2]))
+            if w[0] == 'put':
+                waiting.append(i); arrt.append(t); tput[i] = t
+            elif w[0] == 'serve':
+                if busy is not None:
+                    return [{'what': f'packet {i} taken while {busy[0]} is in transmission', 'signature': 'rrk-overlap'}], multi
+                if i not in waiting:
+                    return [{'what': f'packet {i} served but not waiting', 'signature': 'rrk-not-waiting'}], multi
+                f = info[i][0]
+                if [x for x in waiting if info[x][0] == f][0] != i:
+                    return [{'what': f'packet {i} overtakes an older packet of flow {f}', 'signature': 'rrk-flow-order'}], multi
+                j = flows.index(f)
+                skipped = list(range(cursor, j)) if cursor <= j else list(range(cursor, len(flows))) + list(range(j))
+                # waiting at the decision = put in an earlier instant (the decision burst precedes this observation within the instant)
+                early = [x for x in waiting if tput[x] < t and flows.index(info[x][0]) in skipped]
+                if early:
+                    return [{'what': f'packet {i} (entry {j} of flows) is served from cursor {cursor} while packet {early[0]} of entry '
+                                     f'{flows.index(info[early[0]][0])} waits', 'signature': 'rrk-visit-order'}], multi
+                if len({info[x][0] for x in waiting if tput[x] < t}) > 1:
+                    multi += 1
+                k = len(served)
+                want = arrt[k] if not outs else max(arrt[k], outs[-1][1])
+                if t != want:
+                    return [{'what': f'service {k} (packet {i}) starts at {t!r}, work conservation prescribes {want!r}', 'signature': 'rrk-idle'}], multi
+                waiting.remove(i); busy = (i, t); served.append(i); cursor = j + 1
+            else:
+                if busy is None or busy[0] != i:
+                    return [{'what': f'packet {i} leaves but is not the one in transmission', 'signature': 'rrk-out'}], multi
+                if t != busy[1] + info[i][1] * 8.0 / c['rate']:
+                    return [{'what': f'packet {i}: transmission {busy[1]!r} -> {t!r}, not 8*size/rate', 'signature': 'rrk-tx-time'}], multi
+                outs.append((i, t)); busy = None
+        if busy is not None or waiting or sorted(i for i, _ in outs) != sorted(info):
+            return [{'what': f'not every packet left: waiting {waiting[:6]}, in transmission {busy}', 'signature': 'rrk-drain'}], multi
+        return [], multi
+
+    rng = random.Random(f'C15-rrk-{ctx.seed}')
+    cases = replay_cases() if ctx.replay else [gen(rng, i) for i in range(300 if ctx.quick else 5000)]
+    txt, got = [], {}
+    for c in cases:
+        got[c['cid']] = impl(c)
+        txt += text(c)
+    model = split_cases(run_driver('rrk', '\n'.join(txt) + '\n')) if cases else {}
+    hist, nontriv = collections.Counter(), 0
+    dis, orc = res['disagreements'], res['oracle_failures']
+    for c in cases:
+        a, b = got[c['cid']], model.get(c['cid'])
+        if a != b:
+            i = next((i for i in range(max(len(a), len(b or []))) if i >= len(a) or not b or i >= len(b) or a[i] != b[i]), 0)
+            dis.append({'case': c, 'detail': f'rrk line {i}: impl `{a[i] if i < len(a) else None}` model `{b[i] if b and i < len(b) else None}`',
+                        'impl': a[:300], 'model': (b or [])[:300]})
+        fails, multi = oracle_k(c, a)
+        for f in fails:
+            f['case'] = c; f['trace'] = a[:300]
+            orc.append(f)
+        ev = [l.split() for l in a if l.split()[0] in ('put', 'serve', 'out')]
+        out_t = {w[2] for w in ev if w[0] == 'out'}
+        coinc = sum(1 for w in ev if w[0] == 'put' and w[2] in out_t)
+        hist['packets'] += len(c['arrivals']); hist['decisions with several classes waiting'] += multi
+        hist['arrivals at a transmission end'] += coinc
+        hist[f"flows:{c['F']}"] += 1
+        if multi or coinc:
+            nontriv += 1
+    res['coverage']['rr_on_kernel_model'] = {
+        'evaluations': len(cases), 'distinct_nontrivial': nontriv, 'lines_compared': sum(len(v) for v in got.values()),
+        'rule': 'random declaration orders of 1-5 flows x one source (bursts, arrivals on the grid of the transmission ends, sparse, random '
+                'gaps) run by the K program at Float (driver mode rrk) and by the real RR with a real source process under env.run(); '
+                'non-trivial = a decision with two or more classes waiting or an arrival at a transmission end',
+        'histogram': dict(sorted(hist.items())), 'sample': cases[0] if cases else None}
+    return None
+# ---- END rrk leg ----
+
+
+# ---- BEGIN wrrk leg: WRR as processes on the kernel MODEL (lean/OnlVerif/Net/WRROnK.lean, driver mode `wrrk`) ----
+def run_wrrk(ctx, res=None):
+    """Extra leg for Props/C15KW.lean: the K program of the WRR scheduler (put / send_packet / run + a source process), run at
+    Float by the compiled driver, against the real WRR with a real source process on the real kernel under env.run() (public API
+    only: a subclass taps put() and send_packet(), a recording `out`, the `get` of the public attribute
+    `packets_available` is wrapped to note the idle periods), compared line for line - the key order of the three dicts
+    included; plus C15/C12 restated over the implementation's own observations.  Called twice from run(): without `res` it answers
+    whether ctx.replay is a replay of this leg (then only this leg runs); with the result dict of the main leg it appends its
+    coverage / disagreements / failures."""
+    import json, collections
+    from vlib.util import bits, unbits, quiet, run_driver, split_cases
+    from onl.sim import Environment
+    from onl.packet import Packet
+    from onl.scheduler import WRR
+
+    def replay_cases():
+        j = json.load(open(ctx.replay))
+        cs = ([j['case']] if j.get('case') else []) + [d['case'] for d in (j.get('broken_correspondence') or []) if d.get('case')]
+        return [c for c in cs if isinstance(c, dict) and c.get('kind') == 'wrrk']
+
+    if res is None:
+        if not (ctx.replay and replay_cases()):
+            return None
+        res = {'coverage': {'evaluations': 0, 'distinct_nontrivial': 0, 'rule': 'replay of an wrrk case', 'samples': []},
+               'disagreements': [], 'oracle_failures': []}
+        run_wrrk(ctx, res)
+        k = res['coverage']['wrr_on_kernel_model']
+        res['coverage'].update(evaluations=k['evaluations'], distinct_nontrivial=k['distinct_nontrivial'], samples=[k['sample']])
+        return res
+
+    def gen(rng, cid):
+        F = rng.randint(1, 5)
+        flows = list(range(F))
+        rng.shuffle(flows)                               # insertion order of the weights dict
+        weights = [[f, rng.choice([1, 1, 2, 2, 3, 4])] for f in flows]
+        rate = rng.choice([8.0, 8.0, 8.0, 16.0, 4.0, 1000.0, 12345.678, 1e6 / 3])
+        n = rng.randint(0, 14)
+        shape = rng.choice(['burst', 'coincide', 'mixed', 'mixed', 'sparse', 'random'])
+        arr = []
+        for i in range(n):
+            if shape == 'burst':
+                gap = 0.0 if i else rng.choice([0.0, 1.0])
+            elif shape == 'coincide':                    # unit-size packets at rate 8: transmissions last 1.0, arrivals on the grid
+                gap = float(rng.choice([0, 0, 1, 1, 1, 2]))
+            elif shape == 'sparse':
+                gap = float(rng.choice([5, 10, 50]))
+            elif shape == 'random':
+                gap = rng.random() * 3
+            else:
+                gap = rng.choice([0.0, 0.0, 0.5, 1.0, 1.0, 2.0, 3.0, round(rng.random() * 4, 3)])
+            size = 1 if shape == 'coincide' else rng.choice([1, 1, 2, 3, 4, 100, 1500])
+            arr.append([gap, i, rng.randrange(F), size])
+        if shape == 'coincide':
+            rate = 8.0
+        return {'cid': f'q{cid}', 'kind': 'wrrk', 'F': F, 'weights': weights, 'rate': rate, 'arrivals': arr}
+
+    def text(c):
+        return ([f"CASE {c['cid']} {bits(c['rate'])} {c['F']}"] + [f'decl {f} {wt}' for f, wt in c['weights']]
+                + [f'arr {bits(g)} {i} {f} {sz}' for g, i, f, sz in c['arrivals']] + ['END'])
+
+    def impl(c):
+        env = Environment()
+        hist = []
+
+        class TapRR(WRR):
+            def put(self, packet):
+                hist.append(f'put {packet.packet_id} {bits(env.now)}')
+                return super().put(packet)
+
+            def send_packet(self, packet):
+                hist.append(f'serve {packet.packet_id} {bits(env.now)}')
+                return super().send_packet(packet)
+
+        class Rec:
+            def put(self, packet):
+                hist.append(f'out {packet.packet_id} {bits(env.now)}')
+        with quiet():
+            rr = TapRR(env, c['rate'], dict(map(tuple, c['weights'])))
+        _get = rr.packets_available.get
+
+        def tapped_get():
+            hist.append(f'idle {bits(env.now)}')
+            return _get()
+        rr.packets_available.get = tapped_get
+        rr.out = Rec()
+
+        def src():
+            for gap, i, f, sz in c['arrivals']:
+                yield env.timeout(gap)
+                rr.put(Packet(env.now, sz, i, src='src', flow_id=f))
+        env.process(src())
+        try:
+            with quiet():
+                env.run()
+            tag = 'RET'
+        except BaseException as x:        # noqa - the property says the run never raises
+            tag = f'RAISED {type(x).__name__}'
+        cur = rr.current_packet
+        lines = [tag] + hist + [f'cells rc={rr.packets_received} cur={"None" if cur is None else cur.packet_id} '
+                                f'tokens={len(rr.packets_available.items)}']
+        for f in range(c['F']):
+            st = rr.stores.get(f)
+            lines.append(f'flow {f} count={rr.queue_count.get(f, 0)} bytes={rr.queue_byte_size.get(f, 0)} len={len(st.items) if st else 0}')
+        lines.append(f'keys count={list(rr.queue_count.keys())} bytes={list(rr.queue_byte_size.keys())} stores={list(rr.stores.keys())}')
+        return lines + [f'now {bits(env.now)}', 'oracle ok' if tag == 'RET' and not oracle_k(c, lines)[0] else 'oracle -' if tag != 'RET' else 'oracle REJECT']
+
+    def oracle_k(c, lines):
+        """C15/C12 restated over the implementation's own put / serve / out / idle observations (exact float equalities): the run
+        returns; serve and out alternate on the same packet; out = serve + 8*size/rate; the j-th service starts at max(j-th arrival
+        instant, previous departure); every packet leaves once, per flow in arrival order; the loop waits for the wake-up token only
+        with nothing in the system; visits: entry cm of `weights` is being visited, cj packets sent in this visit (entry 0, none at
+        the start and after an idle period); a service of entry j either continues the visit (j == cm and cj < weight) or the visit is
+        over (cj >= weight, or no packet of its class waits from an earlier instant) and no entry between cm and j (cyclic) has a
+        packet that arrived in an earlier instant and still waits"""
+        if lines[0] != 'RET':
+            return [{'what': f'the run ended with {lines[0]}', 'signature': 'wrrk-raised'}], 0
+        ws = [tuple(x) for x in c['weights']]
+        order = [f for f, _ in ws]
+        info = {i: (f, sz) for _, i, f, sz in c['arrivals']}
+        waiting, busy, served, outs, arrt, multi, tput, cm, cj = [], None, [], [], [], 0, {}, 0, 0
+        for l in lines[1:]:
+            w = l.split()
+            if w[0] == 'idle':
+                if busy is not None or waiting:
+                    return [{'what': f'the loop waits for the wake-up token while packets {waiting[:6]} wait / {busy} is in transmission',
+                             'signature': 'wrrk-idle-with-backlog'}], multi
+                cm, cj = 0, 0
+                continue
+            if w[0] not in ('put', 'serve', 'out'):
+                continue
+            i, t = int(w[1]), unbits(int(w[2]))
+            if w[0] == 'put':
+                waiting.append(i); arrt.append(t); tput[i] = t
+            elif w[0] == 'serve':
+                if busy is not None:
+                    return [{'what': f'packet {i} taken while {busy[0]} is in transmission', 'signature': 'wrrk-overlap'}], multi
+                if i not in waiting:
+                    return [{'what': f'packet {i} served but not waiting', 'signature': 'wrrk-not-waiting'}], multi
+                f = info[i][0]
+                if [x for x in waiting if info[x][0] == f][0] != i:
+                    return [{'what': f'packet {i} overtakes an older packet of flow {f}', 'signature': 'wrrk-flow-order'}], multi
+                j = order.index(f)
+                early = lambda pos: [x for x in waiting if tput[x] < t and order.index(info[x][0]) == pos]
+                if j == cm and cj < ws[cm][1]:
+                    cj += 1
+                else:
+                    if cj < ws[cm][1] and early(cm):
+                        return [{'what': f'packet {i} (entry {j}) is served although the visit of entry {cm} has sent only {cj} of '
+                                         f'{ws[cm][1]} packets and packet {early(cm)[0]} of that class waits', 'signature': 'wrrk-visit-cut-short'}], multi
+                    start = cm + 1
+                    skipped = list(range(start, j)) if start <= j else list(range(start, len(ws))) + list(range(j))
+                    bad = [x for pos in skipped for x in early(pos)]
+                    if bad:
+                        return [{'what': f'packet {i} (entry {j} of weights) is served after entry {cm} while packet {bad[0]} of entry '
+                                         f'{order.index(info[bad[0]][0])} waits', 'signature': 'wrrk-visit-order'}], multi
+                    cm, cj = j, 1
+                if len({info[x][0] for x in waiting if tput[x] < t}) > 1:
+                    multi += 1
+                k = len(served)
+                want = arrt[k] if not outs else max(arrt[k], outs[-1][1])
+                if t != want:
+                    return [{'what': f'service {k} (packet {i}) starts at {t!r}, work conservation prescribes {want!r}', 'signature': 'wrrk-idle'}], multi
+                waiting.remove(i); busy = (i, t); served.append(i)
+            else:
+                if busy is None or busy[0] != i:
+                    return [{'what': f'packet {i} leaves but is not the one in transmission', 'signature': 'wrrk-out'}], multi
+                if t != busy[1] + info[i][1] * 8.0 / c['rate']:
+                    return [{'what': f'packet {i}: transmission {busy[1]!r} -> {t!r}, not 8*size/rate', 'signature': 'wrrk-tx-time'}], multi
+                outs.append((i, t)); busy = None
+        if busy is not None or waiting or sorted(i for i, _ in outs) != sorted(info):
+            return [{'what': f'not every packet left: waiting {waiting[:6]}, in transmission {busy}', 'signature': 'wrrk-drain'}], multi
+        return [], multi
+
+    rng = random.Random(f'C15-wrrk-{ctx.seed}')
+    cases = replay_cases() if ctx.replay else [gen(rng, i) for i in range(300 if ctx.quick else 5000)]
+    txt, got = [], {}
+    for c in cases:
+        got[c['cid']] = impl(c)
+        txt += text(c)
+    model = split_cases(run_driver('wrrk', '\n'.join(txt) + '\n')) if cases else {}
+    hist, nontriv = collections.Counter(), 0
+    dis, orc = res['disagreements'], res['oracle_failures']
+    for c in cases:
+        a, b = got[c['cid']], model.get(c['cid'])
+        if a != b:
+            i = next((i for i in range(max(len(a), len(b or []))) if i >= len(a) or not b or i >= len(b) or a[i] != b[i]), 0)
+            dis.append({'case': c, 'detail': f'wrrk line {i}: impl `{a[i] if i < len(a) else None}` model `{b[i] if b and i < len(b) else None}`',
+                        'impl': a[:300], 'model': (b or [])[:300]})
+        fails, multi = oracle_k(c, a)
+        for f in fails:
+            f['case'] = c; f['trace'] = a[:300]
+            orc.append(f)
+        ev = [l.split() for l in a if l.split()[0] in ('put', 'serve', 'out')]
+        out_t = {w[2] for w in ev if w[0] == 'out'}
+        coinc = sum(1 for w in ev if w[0] == 'put' and w[2] in out_t)
+        hist['packets'] += len(c['arrivals']); hist['decisions with several classes waiting'] += multi
+        hist['arrivals at a transmission end'] += coinc
+        hist[f"flows:{c['F']}"] += 1
+        if multi or coinc:
+            nontriv += 1
+    res['coverage']['wrr_on_kernel_model'] = {
+        'evaluations': len(cases), 'distinct_nontrivial': nontriv, 'lines_compared': sum(len(v) for v in got.values()),
+        'rule': 'random weight tables (weights 1-4, random dict order) over 1-5 flows x one source (bursts, arrivals on the grid of the transmission ends, sparse, random '
+                'gaps) run by the K program at Float (driver mode wrrk) and by the real WRR with a real source process under env.run(); '
+                'non-trivial = a decision with two or more classes waiting or an arrival at a transmission end',
+        'histogram': dict(sorted(hist.items())), 'sample': cases[0] if cases else None}
+    return None
+# ---- END wrrk leg ----
+
+
 def run(ctx):
+    rk = run_rrk(ctx)                        # rrk leg: a replay of one of its cases runs only that leg
+    if rk is not None:
+        return rk
+    rk = run_wrrk(ctx)                       # wrrk leg: likewise
+    if rk is not None:
+        return rk
     rng = random.Random(f'C15-{ctx.seed}')
     cases = cases_from_replay(ctx.replay) if ctx.replay else gen(rng, 1500 if ctx.quick else 30000)
     res = evaluate(
@@ -45,4 +448,6 @@ def run(ctx):
     res['coverage'].update({'translated': _PREP.get('translated', []), 'generated_files_rewritten': _PREP.get('rewritten', []),
                             'generated_diff_vs_pinned': _PREP.get('diff_vs_pinned', []), 'bridge_theorems': BRIDGES,
                             'hand_modelled': HAND_MODELLED})
+    run_rrk(ctx, res)                        # rrk leg: appends its coverage, disagreements and oracle failures in place
+    run_wrrk(ctx, res)                       # wrrk leg: likewise
     return res
